@@ -259,6 +259,9 @@ def _compare(ctx, case, w, m, where):
 
 
 def _resolve(m, op):
+    if op[0] == "pcancel*":
+        r = _resolve(m, ["cancel*"] + list(op[1:]))
+        return ["pcancel", r[1]] if r else None
     if op[0] == "cancel*":
         el = list(m.waiting) if op[1] == "pending" else list(range(len(m.gets)))
         return ["cancel", el[op[2] % len(el)]] if el else None
@@ -275,7 +278,7 @@ def execute(ctx, case):
     cancelled_pending = False
     for step, op0 in enumerate(case["ops"]):
         op = _resolve(m, op0)
-        if op is None or (op[0] == "cancel" and not (isinstance(op[1], int) and 0 <= op[1] < len(m.gets))):
+        if op is None or (op[0] in ("cancel", "pcancel") and not (isinstance(op[1], int) and 0 <= op[1] < len(m.gets))):
             ctx.count("op skipped (no such get)")
             continue
         resolved.append(op)
@@ -320,8 +323,11 @@ def execute(ctx, case):
                 flags.add("re-entrant " + op[1])
             m.get(op[1])
             w.get(op[1])
-        elif name == "cancel":
+        elif name in ("cancel", "pcancel"):
             g = op[1]
+            if name == "pcancel":
+                # round 4 (C07-7): the get's Deferred is paused by its owner while it is cancelled
+                flags.add("cancel of a paused get Deferred (pause, cancel, unpause)")
             if m.cancel(g):
                 cancelled_pending = True
                 flags.add("cancel pending get")
@@ -329,7 +335,14 @@ def execute(ctx, case):
                     flags.add("cancel pending get while others pend")
             else:
                 flags.add("cancel finished get (no-op)")
-            w.gets[g]["d"].cancel() if g < len(w.gets) else None
+            if g < len(w.gets):
+                d = w.gets[g]["d"]
+                if name == "pcancel":
+                    d.pause()
+                    d.cancel()
+                    d.unpause()
+                else:
+                    d.cancel()
         _compare(ctx, case, w, m, f"after step {step} {op}")
     return w, m, resolved, flags
 
@@ -458,6 +471,7 @@ def _history_strategy(max_ops):
         st.tuples(st.just("get"), st.sampled_from(GET_MODES)).map(list),
         st.just(["get", "plain"]),
         st.tuples(st.just("cancel*"), st.sampled_from(["pending", "pending", "any"]), idx).map(list),
+        st.tuples(st.just("pcancel*"), st.sampled_from(["pending", "pending", "any"]), idx).map(list),
     )
     lim = st.sampled_from([None, 0, 1, 2, 3, 5])
     return st.builds(dict, size=lim, backlog=lim, vk=st.sampled_from(VALUE_KINDS + ("int", "int")),
